@@ -10,7 +10,8 @@ PROPERTIES = {
     "C03": {
         "level": "proof",
         "targets": [F("conn.FakeSnowflakeConnection.__init__"), F("instance.FakeSnow.connect"), F("conn.FakeSnowflakeConnection.cursor"), F("checks.is_unqualified_table_expression"),
-                    F("expr.key_command"), F("transforms.set_schema"), F("cursor.FakeSnowflakeCursor._transform"), F("cursor.FakeSnowflakeCursor._execute")],
+                    F("expr.key_command"), F("transforms.set_schema"), F("transforms.describe_table"), F("transforms.show_schemas"), F("transforms.show_objects_tables"),
+                    F("cursor.FakeSnowflakeCursor._transform"), F("cursor.FakeSnowflakeCursor._execute")],
         "bounded": "bounded.C03",
         "trusted_base": [A_DUCK, A_SQLGLOT, A_WF],
         "explanation": "Deductive: connect establishes the session context (conn.database/schema, *_set flags and DuckDB's search path agree; own DuckDB cursor per connection); "
@@ -22,7 +23,10 @@ PROPERTIES = {
     },
     "C04": {
         "level": "proof",
-        "targets": [F("expr.key_command"), F("cursor.FakeSnowflakeCursor._execute")],
+        "targets": [F("expr.key_command"), F("cursor.FakeSnowflakeCursor._execute"), F("cursor.FakeSnowflakeCursor.execute")],
+        # a DML statement must reach _execute: execute may replace a statement by the no-op only when a configured pattern matches at its start
+        "also": {"fakesnow.cursor.FakeSnowflakeCursor.execute": [r"C16\.nop\.only_at_start", r"C16\.nop\.only_if_configured"]},
+        "labelled_only": ["fakesnow.cursor.FakeSnowflakeCursor.execute"],
         "bounded": "bounded.C04",
         "trusted_base": [A_DUCK, A_SQLGLOT, A_WF],
         "explanation": "Deductive: key_command classifies statements per the property's table; for INSERT/UPDATE/DELETE _execute reads DuckDB's affected-row count, instantiates the Snowflake status "
@@ -58,6 +62,8 @@ PROPERTIES = {
         "level": "proof",
         "targets": [F("cursor.FakeSnowflakeCursor._execute"), F("cursor.FakeSnowflakeCursor.execute"), F("variables.Variables.inline_variables"), F("cursor.FakeSnowflakeCursor._inline_variables"),
                     F("conn.FakeSnowflakeConnection.close"), F("checks.is_unqualified_table_expression"), F("cursor.FakeSnowflakeCursor._log_sql")],
+        # the two context errors are part of C07's code table; their clauses are labelled for C03
+        "also": {"fakesnow.cursor.FakeSnowflakeCursor._execute": [r"C03\.guard\."]},
         "bounded": "bounded.C07",
         "trusted_base": [A_DUCK, A_SQLGLOT, A_WF],
         "explanation": "Deductive: exceptional postconditions of _execute (BinderException -> 2043/02000, CatalogException -> 2003/42S02, ConnectionException -> DatabaseError 250002/08003, "
@@ -144,8 +150,10 @@ PROPERTIES = {
     },
     "C09": {
         "level": "other",
-        "targets": [F("info_schema.insert_table_comment_sql"), F("info_schema.insert_text_lengths_sql"), F("transforms.extract_comment_on_table"), F("types.describe_as_rowtype.<locals>.as_column_info"), F("cursor.FakeSnowflakeCursor._execute")],
-        "also": {"fakesnow.types.describe_as_rowtype.<locals>.as_column_info": [r"C06\.rowtype\."], "fakesnow.cursor.FakeSnowflakeCursor._execute": [r"C09\."]},
+        "targets": [F("info_schema.insert_table_comment_sql"), F("info_schema.insert_text_lengths_sql"), F("transforms.extract_comment_on_table"), F("transforms.show_schemas"), F("transforms.show_objects_tables"), F("transforms.describe_table"),
+                    F("types.describe_as_rowtype.<locals>.as_column_info"), F("cursor.FakeSnowflakeCursor._execute")],
+        "also": {"fakesnow.types.describe_as_rowtype.<locals>.as_column_info": [r"C06\.rowtype\."], "fakesnow.cursor.FakeSnowflakeCursor._execute": [r"C09\."],
+                 "fakesnow.transforms.describe_table": [r"C03\.describe\."], "fakesnow.transforms.show_schemas": [r"C03\.show_schemas\."], "fakesnow.transforms.show_objects_tables": [r"C03\.show_objects\."]},
         "labelled_only": ["fakesnow.cursor.FakeSnowflakeCursor._execute"],
         "bounded": "bounded.C09",
         "trusted_base": [A_DUCK, A_SQLGLOT, A_WF, "the information_schema view definitions (SQL text in info_schema.py) are DuckDB programs, not Python: outside the verifier"],
@@ -156,7 +164,7 @@ PROPERTIES = {
     },
     "C10": {
         "level": "other",
-        "targets": [F("cursor.FakeSnowflakeCursor._transform"), F("cursor.FakeSnowflakeCursor._execute")],
+        "targets": [F("transforms.values_columns"), F("transforms.dateadd_date_cast"), F("cursor.FakeSnowflakeCursor._transform"), F("cursor.FakeSnowflakeCursor._execute")],
         "also": {"fakesnow.cursor.FakeSnowflakeCursor._transform": [r"C11\.pipeline\.order"]},
         "labelled_only": ["fakesnow.cursor.FakeSnowflakeCursor._execute"],
         "bounded": "bounded.C10",
